@@ -143,6 +143,8 @@ def run(ctx, spec):
             maps = rng.sample(maps, 60)
         for k, m in enumerate(maps):
             c2 = dict(case, mapping={str(a): b for a, b in m.items()})
+            if k % 5 == 1:
+                c2["colors"] = True
             if k % 3 == 0 and len(lm) >= 2:
                 c2["syn"] = gen.random_syntenies(rng, list(c2["leafmap"]), 3, ordered=True, consistent_p=1.0)
                 c2["unordered"] = k % 2 == 0
@@ -150,7 +152,7 @@ def run(ctx, spec):
             if ctx.too_many():
                 return
     for _ in range(spec["nrand"]):
-        case = R.make_case(rng, 10, 6)
+        case = R.make_case(rng, 10, 6, colors=rng.random() < 0.4)
         check_scene(ctx, "C13", R.Scene(case), rng, MONITORS)
         if ctx.too_many():
             return
